@@ -799,7 +799,17 @@ impl WorkerCtx {
                     self.consumers[*cs].kept.clear();
                 }
                 let c = self.consumers[*cs].consumer.take();
-                drop(c);
+                if idx % 2 == 1 && c.is_some() {
+                    // every other drop happens the way it does when application code panics and the panic is
+                    // caught further up: the consumer goes out of scope while its thread is unwinding
+                    self.hist.lock().unwrap().notes.push(format!("drop-while-unwinding t{} idx{}", self.thread, idx));
+                    let _ = std::panic::catch_unwind(std::panic::AssertUnwindSafe(move || {
+                        let _c = c;
+                        std::panic::panic_any(amiquip_simrt::DeliberateUnwind);
+                    }));
+                } else {
+                    drop(c);
+                }
                 OpResult::Unit
             }
             Op::ForgetConsumer { slot: cs } => {
